@@ -809,7 +809,10 @@ def call(I, f, args, kwargs, node=None):
             return I.call_method_ast(f, "__call__", args, kwargs)
     if I.spec:
         raise Unsupported("call of %s in spec" % type(f).__name__)
-    I.raise_exc("TypeError", "object is not callable")
+    if isinstance(f, (VModule, VOpaque, VUndef)) or type(f).__name__ in ("VModule", "VOpaque", "VUndef"):
+        # an unmodelled external name: an engine limitation, not a python TypeError
+        raise Unsupported("call of an unmodelled external object (%s) at line %s" % (type(f).__name__, getattr(node, "lineno", "?")))
+    I.raise_exc("TypeError", "object is not callable (%s)" % type(f).__name__)
 
 
 def _havoc_path(I, src, env):
@@ -2042,6 +2045,12 @@ def resolve_optionals(I, v, t):
     if isinstance(v, VTuple) and isinstance(t, TTuple) and len(v.items) == len(t.elems) and \
             any(isinstance(x, VOpt) and not isinstance(et, TOpt) for x, et in zip(v.items, t.elems)):
         return VTuple([resolve_optionals(I, x, et) for x, et in zip(v.items, t.elems)])
+    if isinstance(v, VDictRec) and isinstance(t, TDRec) and getattr(v, "mt", None) is None and any(
+            isinstance(x, VOpt) and fn in t.fields and not isinstance(t.fields[fn], TOpt) for fn, x in v.fields.items()):
+        # dict literal whose field holds an Optional that was tested before (`if etag_from:`): resolve on this path
+        d = VDictRec({fn: (I.force(x) if isinstance(x, VOpt) and fn in t.fields and not isinstance(t.fields[fn], TOpt) else x)
+                      for fn, x in v.fields.items()})
+        return d
     return v
 
 
